@@ -30,18 +30,21 @@ static Blend3 mk3(KdCtx *k, int w, int h, int es, long long maxv, int src_es, lo
     Blend3 b;
     int    alias = (es == src_es) ? kr_range(k, 0, 2) : 0; /* 0 separate, 1 src0 == dst, 2 src1 == dst */
     b.ds         = kstride(k, w, 1);
+    kpad(k, 0, 32);
     b.dst        = kb2(k, w, h, b.ds, es, 64, kr_range(k, 0, 32), 0);
     if (alias) kfill2(k, b.dst, w, h, b.ds, es, 0, maxv);
     else kprefill2(k, b.dst, w, h, b.ds, es);
     if (alias == 1) b.s0 = b.dst, b.s0s = b.ds;
     else {
         b.s0s = kstride(k, w, 1);
+        kpad(k, 0, 32); /* predictions live in SB-sized (or picture) buffers */
         b.s0  = kb2(k, w, h, b.s0s, src_es, 64, kr_range(k, 0, 32), 0);
         kfill2(k, b.s0, w, h, b.s0s, src_es, 0, src_max);
     }
     if (alias == 2) b.s1 = b.dst, b.s1s = b.ds;
     else {
         b.s1s = kstride(k, w, 1);
+        kpad(k, 0, 32);
         b.s1  = kb2(k, w, h, b.s1s, src_es, 64, kr_range(k, 0, 32), 0);
         kfill2(k, b.s1, w, h, b.s1s, src_es, 0, src_max);
     }
@@ -52,6 +55,9 @@ static Blend3 mk3(KdCtx *k, int w, int h, int es, long long maxv, int src_es, lo
 static const uint8_t *mk_mask2d(KdCtx *k, int w, int h, int subx, int suby, int *ms) {
     int mw = w << subx, mh = h << suby;
     *ms        = kstride(k, mw, 1);
+    /* masks come from the wedge / smooth-interintra / seg_mask arrays (MAX_SB_SQUARE or larger): a
+     * vector load that covers a few bytes more than the last mask row stays inside them */
+    kpad(k, 0, 32);
     uint8_t *m = (uint8_t *)kb2(k, mw, mh, *ms, 1, 64, kr_range(k, 0, 15), 0);
     kfill2(k, m, mw, mh, *ms, 1, 0, 64);
     ka(k, "subx", subx), ka(k, "suby", suby), ka(k, "mask_stride", *ms);
@@ -82,6 +88,7 @@ KDH(blend_mask_hbd) {
 
 /* 1-D masks (OBMC): hmask has w entries, vmask h entries */
 static const uint8_t *mk_mask1d(KdCtx *k, int n) {
+    kpad(k, 0, 32);
     uint8_t *m = (uint8_t *)kb(k, (size_t)n, 1, 16);
     kfill(k, m, (size_t)n, 1, 0, 64);
     return m;
